@@ -9,7 +9,8 @@
 (c) the real qmail-inject (ASan build) with QMAILQUEUE=qq-rec: generated headers x modes -a/-h/-H/-A/-f x
     QMAILINJECT flags x defaulthost/defaultdomain/plusdomain settings: envelope recipients (multiset) ==
     expected mailboxes after the documented rewriting, no Bcc / Resent-Bcc in the output, and the
-    recorded message fed to qmail-inject -h once more yields the same non-Bcc recipients."""
+    recorded message fed to qmail-inject -h once more yields the same non-Bcc recipients.
+(d) addresses encoded by the real addrmangle() sent as RCPT TO:<...> to the real qmail-smtpd binary."""
 import collections
 import glob
 import json
@@ -345,6 +346,91 @@ def inject_worker(bdir, lo, hi):
     return res
 
 
+# ------------------------------------------------------------------ (d) addrmangle() output through the real qmail-smtpd
+
+ALPHABET = b"()<>@,;:\\\".[] \r\t\x80\xffaB"
+
+
+def smtpd_worker(bdir, hbin, lo, hi, per):
+    """sessions lo..hi: `per` recipients each, encoded by the real addrmangle() (harness), sent as
+    RCPT TO:<...> lines exactly as qmail-remote writes them to the real qmail-smtpd binary; the
+    envelope it hands to the queue program must list the very same addresses in order"""
+    res = core.Result()
+    b = build.Build("asan", bdir)
+    home = build.mktemp("nqv-c17-s-")
+    sandbox.make_home(b, home, controls={"me": "server.test"}, bins=("qmail-smtpd",), queue=False)
+    rec = home + "/rec"
+    os.makedirs(rec)
+    for i in range(lo, hi):
+        rng = core.case_rng(PROP, i, "smtpd")
+        addrs = []
+        for _ in range(per):
+            n = rng.choice([0, 1, 1, 2, 3, 4, 6, 10, 30, 64])
+            k = rng.random()
+            if k < 0.6:
+                local = bytes(rng.choice(ALPHABET) for _ in range(n))
+            elif k < 0.8:
+                local = bytes(rng.choice([c for c in range(1, 256) if c != 10]) for _ in range(n))
+            else:
+                local = rng.choice(g.PLAIN_WORDS + g.ODD_WORDS)
+            addrs.append(local + b"@" + rng.choice([b"h.test", b"[1.2.3.4]", b"x", b"Sub.Dom.Example"]))
+        ap = home + "/addrs"
+        with open(ap, "wb") as f:
+            f.write(b"".join(a + b"\0" for a in addrs))
+        rc, out, err = core.run_with_watchdog([hbin, "mangle", ap], 60, env=b.env())
+        mang = [bytes.fromhex(l[2:]) if l[2:] != "-" else b"" for l in out.decode("latin1").split("\n") if l.startswith("M ")]
+        if rc != 0 or len(mang) != len(addrs):
+            res.inconclusive.append("h_quote822 mangle rc=%s, %d of %d lines" % (rc, len(mang), len(addrs)))
+            continue
+        session = b"HELO client.test\r\nMAIL FROM:<>\r\n" + b"".join(b"RCPT TO:<" + m + b">\r\n" for m in mang) + \
+            b"DATA\r\nSubject: c17\r\n\r\nbody\r\n.\r\nQUIT\r\n"
+        for f in glob.glob(rec + "/*"):
+            os.unlink(f)
+        sp = home + "/session"
+        with open(sp, "wb") as f:
+            f.write(session)
+        env = b.env(home, {"QMAILQUEUE": QQREC, "NQV_REC": rec, "TCPREMOTEIP": "192.0.2.7", "TCPLOCALIP": "192.0.2.1"})
+        with open(sp, "rb") as fin:
+            rc, out, err = core.run_with_watchdog([home + "/bin/qmail-smtpd"], 60, env=env, stdin=fin)
+        e = err.decode("latin1")
+        res.evaluations += 1
+        res.counters.inc("smtpd_sessions")
+        if rc is None:
+            res.inconclusive.append("qmail-smtpd watchdog (session %d)" % i)
+            continue
+        if "Sanitizer" in e or "runtime error" in e or rc < 0:
+            res.violate("C20/sanitizer/qmail-smtpd/" + hrun.sanitizer_site(e), "sanitizer report in qmail-smtpd (rc=%s)" % rc,
+                        {"case_index": i, "session": core.hx(session[:2000]), "stderr_tail": e[-2500:]})
+            continue
+        replies = [l for l in out.split(b"\r\n") if l]
+        # greeting, HELO, MAIL, per RCPT, DATA 354, 250 queued, QUIT
+        rcpt_replies = replies[3:3 + per]
+        envs = glob.glob(rec + "/*.env")
+        pe = None
+        if len(envs) == 1:
+            with open(envs[0], "rb") as f:
+                pe = parse_envelope(f.read())
+        wit = {"case_index": i, "addresses": [core.hx(a) for a in addrs], "addresses_hex": [a.hex() for a in addrs],
+               "encoded": [core.hx(m) for m in mang], "replies": [core.hx(r) for r in replies[:per + 8]]}
+        if len(rcpt_replies) != per or any(not r.startswith(b"250") for r in rcpt_replies):
+            res.violate("C17/smtp-e2e/refused", "the server refused a recipient its own client encoded", wit)
+            continue
+        if pe is None:
+            res.inconclusive.append("qmail-smtpd session %d: no envelope recorded, replies %r" % (i, replies[-3:]))
+            continue
+        wit["observed"] = [core.hx(x) for x in pe[1]]
+        for a in addrs:
+            res.nontrivial("smtpd", a)
+        res.counters.inc("smtpd_recipients", per)
+        if pe[1] != addrs:
+            bad = [k for k in range(min(len(addrs), len(pe[1]))) if addrs[k] != pe[1][k]]
+            wit["first_difference"] = {"sent": core.hx(addrs[bad[0]]), "received": core.hx(pe[1][bad[0]])} if bad else "count"
+            res.violate("C17/smtp-e2e/address-differs", "address received by qmail-smtpd differs from the one qmail-remote encoded", wit)
+        else:
+            res.counters.inc("smtpd_sessions_exact")
+    return res
+
+
 def main(tier):
     t0 = time.time()
     b = build.vbuild("asan")
@@ -355,6 +441,7 @@ def main(tier):
     nrand = core.scaled(400000 if quick else 20000000)
     nlists = core.scaled(60000 if quick else 1500000)
     ninj = core.scaled(5000 if quick else 200000)
+    nsess = core.scaled(150 if quick else 5000)
     jobs = []
     for L in range(0, maxL + 1):
         n = 20 ** L
@@ -365,22 +452,24 @@ def main(tier):
     res = hrun.run_many(hbin, jobs, env, timeout=3600)
     res.merge(core.pmap(lists_worker, [(hbin, env, lo, hi) for lo, hi in core.chunks(nlists, core.JOBS * 2)], timeout=7200))
     res.merge(core.pmap(inject_worker, [(b.dir, lo, hi) for lo, hi in core.chunks(ninj, core.JOBS * 2)], timeout=14400))
+    res.merge(core.pmap(smtpd_worker, [(b.dir, hbin, lo, hi, 40) for lo, hi in core.chunks(nsess, core.JOBS)], timeout=7200))
     rule = ("(a) every local part of length <= %d over the 20-symbol alphabet ( ) < > @ , ; : \\ \" . [ ] SP CR TAB 0x80 0xff a B, "
             "plus %d random local parts of 1-64 (a quarter: 1-250) bytes without NUL/LF, each through quote2 -> token822_parse -> addrlist -> "
             "unquote, token822_unparse -> parse again, and addrmangle -> smtpd addrparse; (b) %d generated RFC 822 fields (comments, "
             "quoted strings, literals, routes, groups, folding, missing commas, null elements) through token822_addrlist, expected "
             "mailboxes known by construction, and again after unparse; (c) %d generated messages through the real qmail-inject with "
             "qq-rec as queue across -a/-h/-H/-A/-f, QMAILINJECT letters and defaulthost/defaultdomain/plusdomain (control, absent, "
-            "environment override), each re-injected once with -h. Non-trivial = local part needs quoting (a), distinct generated "
+            "environment override), each re-injected once with -h; (d) %d SMTP sessions of 40 recipients each: addresses encoded by the real "
+            "addrmangle() and sent as RCPT TO:<...> to the real qmail-smtpd binary, its queue envelope compared in order. Non-trivial = local part needs quoting (a), distinct generated "
             "field (b), message using a grammar feature beyond plain addr-specs or a command-line recipient (c)." % (
-                maxL, nrand, nlists, ninj))
+                maxL, nrand, nlists, ninj, nsess))
     extra = {"exhaustive": True, "exhaustive_scope": "all local parts of length <= %d over a 20-symbol alphabet (harness part only)" % maxL}
     return core.finish(PROP, tier, "exploration", res, rule, t0, extra=extra, assumptions=[
         "expected mailboxes come from the generator's construction (nqv/gen_rfc822.py), no second RFC 822 parser is trusted",
         "rewriting rules from qmail-header(5) and qmail-inject(8): lone box -> defaulthost; host ending in + -> plusdomain; host without dots -> defaultdomain; literals and dotted names unchanged",
         "recipients compared as multisets (qmail-inject emits the recipients of one field in reverse order)",
         "valid lists only; no NUL or LF inside an address; -f checked only for fully qualified senders (nothing to rewrite)",
-        "addrparse() is called in-process with 'TO:<...>' (localiphost substitution off); the SMTP command reader is not part of this check"])
+        "addrparse() is called in-process with 'TO:<...>' (localiphost substitution off); the command reader is covered by part (d) only"])
 
 
 def replay(path):
